@@ -13,7 +13,7 @@ import numpy as np
 from .. import env as E
 from .. import gen as G
 from .. import scen as S
-from ..twin import compare_traces, run_traced
+from ..twin import compare_traces, confirm_chain, run_traced
 from .. import world as W
 
 PROPERTY = "C04"
@@ -88,19 +88,18 @@ def twin_spec(scn):
     return spec
 
 
+NOISE_EPS = 1e-9
+
+
+def _bad(res):
+    return [v for v in res["verdicts"] if v["clause"] != "rate"]
+
+
 def execute(scn):
     res = _execute(scn)
-    bad = [v for v in res["verdicts"] if v["clause"] != "rate"]
-    if bad and scn["world"].get("solver", {}).get("tol") != "tight":
-        s2 = copy.deepcopy(scn)
-        s2["world"]["solver"] = {"tol": "tight"}
-        res2 = _execute(s2)
-        c = res["stats"]["counters"]
-        if not [v for v in res2["verdicts"] if v["clause"] != "rate"]:
-            c["default_solver_outlier_not_confirmed_by_tight_solver"] = 1
-            res["verdicts"] = [v for v in res["verdicts"] if v["clause"] == "rate"]
-        else:
-            c["violation_confirmed_by_tight_solver"] = 1
+    if _bad(res) and not confirm_chain(scn, _execute, _bad, tol_fn, PROPERTY,
+                                       res["stats"]["counters"], NOISE_EPS):
+        res["verdicts"] = [v for v in res["verdicts"] if v["clause"] == "rate"]
     return res
 
 
@@ -235,6 +234,8 @@ COMPONENTS = {
 ASSUMPTIONS = [
     "integrated-texture clause claimed; the instantaneous-rate clause is checked only on states reached by the simulated histories",
     "default-solver twins limited to accumulated strain <= 2; tight-solver twins up to 6",
+    "a discrepancy must also persist when the initial textures of both worlds receive the same deterministic 1e-9 perturbation (two variants); counted as knife_edge_not_reproduced_under_perturbation otherwise",
+    "a discrepancy is not judged when the history amplifies a deterministic 1e-9 perturbation of the initial texture beyond a tenth of the tolerance; counted as ill_conditioned_history_not_judged",
     "comparison stops at an exact tie at the sliding threshold (counted as inconclusive_tie)",
     "axis-aligned initial textures (exactly vanishing slip invariants, the measure-zero set of C03) are not generated",
 ]
